@@ -5,11 +5,14 @@ import json, os, subprocess, sys, tempfile
 import xml.etree.ElementTree as ET
 
 env = {k: v for k, v in os.environ.items() if k not in ("UBERMAG_DISCRETISEDFIELD_VERIF", "UBERMAG_DISCRETISEDFIELD_VERIF_OVF_CHUNK")}
+TREE = os.environ.get("DSIM_BASELINE_TREE", "/repo")
+if TREE != "/repo":
+    env["PYTHONPATH"] = TREE
 out = tempfile.mkdtemp(prefix="dsim-baseline-")
 xml = os.path.join(out, "junit.xml")
 extra = sys.argv[1:]
 cmd = ["/venv/bin/python", "-m", "pytest", "-ra", "-q", "-p", "no:cacheprovider", "--timeout=900", "--continue-on-collection-errors", f"--junitxml={xml}", *extra]
-p = subprocess.run(cmd, cwd="/repo", env=env, capture_output=True, text=True)
+p = subprocess.run(cmd, cwd=TREE, env=env, capture_output=True, text=True)
 print(p.stdout[-1500:])
 passed = set()
 for tc in ET.parse(xml).getroot().iter("testcase"):
